@@ -287,7 +287,8 @@ def obs_decisions(case, block):
 
 
 def obs_panic(case, block):
-    if case.kind == "fn" and case.lines and (case.lines[0].startswith("validate_") or "_codec" in case.lines[0]):
+    if case.kind == "fn" and case.lines and (case.lines[0].startswith("validate_") or "_codec" in case.lines[0]
+                                             or case.lines[0] in ("opus_config", "frag_default_init", "invariant_log")):
         # the validation module reports everything through its return value: the whole result is observed
         return block
     return [l for l in block if "panic" in l]
